@@ -266,7 +266,9 @@ fn member(rng: &mut Rng, luau: bool) -> String {
         _ => "",
     };
     let sp = if rng.chance(1, 4) { "   " } else { " " };
-    format!("local{sp}{name}{sp}={sp}{rhs}{tail}")
+    // an inline block comment in front of the statement travels with it
+    let lead = if rng.chance(1, 10) { format!("--[[ about {name} ]] ") } else { String::new() };
+    format!("{lead}local{sp}{name}{sp}={sp}{rhs}{tail}")
 }
 
 /// Statements that look like a group member but are not `local NAME = require(...)` /
